@@ -202,3 +202,26 @@ Proof.
     unfold nzb. destruct (reach_inv s R) as [[_ _ Gi _] _]. destruct (g_grp s Gi g t H1) as [_ [H0 _]].
     destruct (Nat.eqb_spec t 0); [lia|reflexivity].
 Qed.
+
+Theorem group_result_composition_ops ops g : disciplined ops = true ->
+  let s := final step init ops in
+  let L := g_excs (groups s g) in
+  let body := map snd (filter ztag L) in
+  let ms := filter nzb (map fst L) in
+  Permutation (map snd L) (body ++ map (fun t => exn_of_done (k_done (tasks s t))) ms) /\
+  Permutation (flat_map leaves (map snd L))
+              (flat_map leaves body ++ flat_map (fun t => leaves (exn_of_done (k_done (tasks s t)))) ms) /\
+  length body <= 1 /\ (forall e, In e body -> is_cancel e = false) /\
+  NoDup ms /\
+  (forall t, In t ms -> k_group (tasks s t) = Some g /\ k_tdran (tasks s t) = true /\
+                        exists e, k_done (tasks s t) = Some (OExc e) /\ is_cancel e = false) /\
+  (forall t e, In t (g_ever (groups s g)) -> k_tdran (tasks s t) = true -> k_done (tasks s t) = Some (OExc e) ->
+     In t ms \/ exists f, k_startfut (tasks s t) = Some f /\ f_st (futs s f) = FExc e).
+Proof. intros H. apply (group_result_composition (final step init ops) g (dreach_final ops H)). Qed.
+
+Example ex_result_composition :
+  let ops := [ANewRoot; AGroupNew 1; AGroupEnter 1 1; ASpawn 1 1; ARun (HStep 2); AHold 2 7; AFinish 2 0;
+              ARun (HTaskDone 2); ARun (HWake 1 4); AWrap 1 5; AGroupExit 1 1] in
+  disciplined ops = true /\
+  map snd (g_excs (groups (final step init ops) 1)) = [EErr 7; EGroup [ECancel 2; EErr 5]].
+Proof. vm_compute. auto. Qed.
